@@ -137,7 +137,7 @@ def run(ctx):
     rcm, model, _, errm = fw.run_model(ctx, cf)
     if rcm != 0: ctx.signal("K", "modeldriver", "model driver exited with %s: %s" % (rcm, errm[-400:]))
     for c in cases: judge(ctx, c, impl, model)
-    if not ctx.replay: run_block_conv(ctx)
+    if not ctx.replay: run_block_conv(ctx); run_block_chain(ctx)
     if not ctx.replay:
         import C07par
         C07par.run(ctx)
@@ -181,6 +181,88 @@ def run_block_conv(ctx):
         eq, why = fw.mats_equal_canonical(Mi, Mm); ctx.compared += 1
         if not eq:
             ctx.signal("K", sig, "model and implementation differ: " + why, case=c["line"], extra=dict(impl=" ".join(ri[0][1]), model=" ".join(rm[0][1])))
+
+BOPS = ["to_bcoo", "to_bsr", "to_bsc", "copy", "transpose", "sort", "move_diag", "remove_duplicates", "to_csr"]
+
+def parse_bmat(toks):
+    """-> (fmt, nr, nc, br, bc, dense {(i,j): v}) of a block or scalar result line"""
+    if toks[0] in ("coo", "csr", "csc"):
+        M = fw.parse_mat_tokens(toks); return M.fmt, M.nr, M.nc, 1, 1, M.dense(), M
+    fmt, nbr, nbc, br, bc, nnz = toks[0], int(toks[1]), int(toks[2]), int(toks[3]), int(toks[4]), int(toks[5])
+    i1 = toks.index("I1"); i2 = toks.index("I2"); iv = toks.index("V")
+    idx1 = [int(x) for x in toks[i1 + 1:i2]]; idx2 = [int(x) for x in toks[i2 + 1:iv]]
+    vals = [nums.parse_num(x) for x in toks[iv + 1:]]
+    if len(vals) != nnz * br * bc or len(idx2) != nnz: raise ValueError("malformed block matrix: %d values for %d blocks" % (len(vals), nnz))
+    if fmt == "bcoo": pos = list(zip(idx1, idx2))
+    else:
+        n1 = nbr if fmt == "bsr" else nbc
+        if len(idx1) != n1 + 1 or idx1[0] != 0 or idx1[-1] != nnz or any(idx1[k] > idx1[k + 1] for k in range(n1)):
+            raise ValueError("malformed pointer array %s" % idx1)
+        pos = []
+        for l in range(n1):
+            for k in range(idx1[l], idx1[l + 1]): pos.append((l, idx2[k]) if fmt == "bsr" else (idx2[k], l))
+    d = {}
+    for k, (I, J) in enumerate(pos):
+        if not (0 <= I < nbr and 0 <= J < nbc): raise ValueError("block position (%d,%d) outside %dx%d" % (I, J, nbr, nbc))
+        for r in range(br):
+            for c in range(bc):
+                v = vals[k * br * bc + r * bc + c]
+                if isinstance(v, str): raise ValueError("non-finite value")
+                key = (I * br + r, J * bc + c); d[key] = d.get(key, Fraction(0)) + v
+    return fmt, nbr * br, nbc * bc, br, bc, {k: v for k, v in d.items() if v != 0}, (fmt, nbr, nbc, br, bc, idx1, idx2, pos)
+
+def run_block_chain(ctx):
+    """block forms: chains of <= 3 of {to_BCOO,to_BSR,to_BSC,copy,transpose,sort,move_diag,remove_duplicates,to_CSR} on BCOO/BSR/BSC
+    matrices (rectangular block grids and rectangular blocks, duplicate block positions); oracle = dense image, dimensions, format"""
+    rng = ctx.rng; cases = []
+    for k in range(ctx.scale(500, 8000)):
+        nbr, nbc = rng.randint(1, 4), rng.randint(1, 4); br, bc = rng.randint(1, 3), rng.randint(1, 3)
+        if rng.random() < 0.3: nbc = nbr
+        if rng.random() < 0.3: bc = br
+        nblk = rng.choice([0, 1, rng.randint(1, nbr * nbc + 2)])
+        blocks = [(rng.randrange(nbr), rng.randrange(nbc), [Fraction(rng.randint(1, 9)) * rng.choice([1, -1]) for _ in range(br * bc)]) for _ in range(nblk)]
+        fmt = rng.choice(["bcoo", "bsr", "bsc"]); nops = rng.choice([1, 1, 2, 3])
+        ops = []
+        for q in range(nops):
+            o = rng.choice(BOPS)
+            if o == "to_csr" and q != nops - 1: o = "copy"
+            ops.append(o)
+        toks = ["bk%d" % k, "bchain", fmt, nbr, nbc, br, bc, nblk]
+        for (I, J, v) in blocks: toks += [I, J] + [nums.tok_num(z) for z in v]
+        toks += [len(ops)] + ops
+        exp = {}
+        for (I, J, v) in blocks:
+            for r in range(br):
+                for c in range(bc):
+                    key = (I * br + r, J * bc + c); exp[key] = exp.get(key, Fraction(0)) + v[r * bc + c]
+        nr, nc, ebr, ebc, efmt = nbr * br, nbc * bc, br, bc, fmt
+        for o in ops:
+            if o == "transpose": exp = {(j, i): v for (i, j), v in exp.items()}; nr, nc, ebr, ebc = nc, nr, ebc, ebr
+            elif o in ("to_bcoo", "to_bsr", "to_bsc"): efmt = o[3:]
+            elif o == "to_csr": efmt = "csr_or_bsr"      # BSR::to_CSR expands to scalars; BCOO/BSC::to_CSR return the block-row form
+        cases.append(dict(cid="bk%d" % k, line=" ".join(str(z) for z in toks), exp={k_: v for k_, v in exp.items() if v != 0},
+                          nr=nr, nc=nc, br=ebr, bc=ebc, fmt=efmt, ops=ops, src=fmt, nblk=nblk))
+    lines = [c["line"] for c in cases]
+    impl, crashed = fw.run_impl_lines(ctx, "drv_matrix", lines, nprocs=0, name="c07bchain")
+    for c in cases:
+        ctx.evaluations += 1; ctx.count("block_src_" + c["src"])
+        for o in c["ops"]: ctx.count("bop_" + o)
+        if c["nblk"]: ctx.nontrivial.add(c["line"].split(" ", 1)[1])
+        sig = "bchain:%s:%s" % (c["src"], ">".join(c["ops"]))
+        ri = impl.get(c["cid"])
+        if not ri or ri[0][0] != "R":
+            ctx.signal("O", sig + ":crash", "implementation failed on case: %s" % (ri,), case=c["line"]); continue
+        try:
+            fmt, nr, nc, br, bc, dense, _ = parse_bmat(ri[0][1])
+        except (ValueError, IndexError) as e:
+            ctx.signal("O", sig, "result is not a well-formed matrix: %s" % e, case=c["line"], extra=dict(impl=" ".join(ri[0][1])[:600])); continue
+        ok, why = fw.dense_equal(dense, c["exp"])
+        if ok and (nr, nc) != (c["nr"], c["nc"]): ok, why = False, "dimensions %s, expected %s" % ((nr, nc), (c["nr"], c["nc"]))
+        if ok and c["fmt"] == "csr_or_bsr":
+            if not (fmt == "csr" or (fmt, br, bc) == ("bsr", c["br"], c["bc"])): ok, why = False, "format/block size %s after to_CSR" % ((fmt, br, bc),)
+        elif ok and (fmt, br, bc) != (c["fmt"], c["br"], c["bc"]): ok, why = False, "format/block size %s, expected %s" % ((fmt, br, bc), (c["fmt"], c["br"], c["bc"]))
+        if not ok:
+            ctx.signal("O", sig, "operator/dimension/format postcondition violated: " + why, case=c["line"], extra=dict(impl=" ".join(ri[0][1])[:600]))
 
 def dict_from_line(line):
     """rebuild a case from its text (replay)"""
